@@ -64,6 +64,19 @@ def seq_to_list(v):
     return [str(v)]
 
 
+def guarded_check(s, budget_ms):
+    """s.check() with a watchdog: should z3 overrun its own timeout by two seconds, it is interrupted (the result is then `unknown`)"""
+    import threading
+    ctx = z3.main_ctx()          # (no reference to the solver object may live in the timer thread: z3 objects must be released by the thread that uses them)
+    w = threading.Timer(budget_ms / 1000.0 + 2.0, ctx.interrupt)
+    w.daemon = True
+    w.start()
+    try:
+        return s.check()
+    finally:
+        w.cancel()
+
+
 def solve_one(job):
     """job = (key, smt2 text, want_model) -> dict"""
     key, smt2, want_model = job
@@ -76,7 +89,7 @@ def solve_one(job):
                 s = z3.Solver()
                 s.set('timeout', budget)
                 s.from_string(smt2)
-                r = s.check()
+                r = guarded_check(s, budget)
                 if r == z3.unsat:
                     res.update(status='unsat', backend='z3', seconds=time.time() - t0)
                     return res
@@ -108,7 +121,37 @@ def solve_one(job):
     return res
 
 
-def run_cvc5(smt2):
+def solve_long(job):
+    """second opinion with four times the budgets, for an obligation that was discharged on the baseline tree and is undecided after a code
+    change: a verdict must not flip because the machine is busy or a harmless edit made the query a little slower"""
+    key, smt2 = job
+    res = dict(key=key, status='unknown', backend='z3', seconds=0.0, reason='')
+    t0 = time.time()
+    try:
+        s = z3.Solver()
+        s.set('timeout', 4 * Z3_TIMEOUT_MS)
+        s.from_string(smt2)
+        r = guarded_check(s, 4 * Z3_TIMEOUT_MS)
+        if r in (z3.unsat, z3.sat):
+            res.update(status=str(r), backend='z3', seconds=time.time() - t0)
+            return res
+        res['reason'] += ' | z3(%dms): %s' % (4 * Z3_TIMEOUT_MS, s.reason_unknown())
+    except Exception as e:
+        res['reason'] += ' | z3 error: %s' % e
+    try:
+        r2 = run_cvc5(smt2, seconds=4 * CVC5_TIMEOUT_S)
+        if r2 in ('unsat', 'sat'):
+            res.update(status=r2, backend='cvc5', seconds=time.time() - t0)
+            return res
+        res['reason'] += ' | cvc5(%ds): %s' % (4 * CVC5_TIMEOUT_S, r2)
+    except Exception as e:
+        res['reason'] += ' | cvc5 error: %s' % e
+    res['seconds'] = time.time() - t0
+    return res
+
+
+def run_cvc5(smt2, seconds=None):
+    seconds = seconds or CVC5_TIMEOUT_S
     txt = smt2
     if '(set-logic' not in txt:
         txt = '(set-logic ALL)\n' + txt
@@ -116,8 +159,8 @@ def run_cvc5(smt2):
         f.write(txt)
         path = f.name
     try:
-        p = subprocess.run([CVC5, '--strings-exp', '--tlimit=%d' % (CVC5_TIMEOUT_S * 1000), path],
-                           capture_output=True, text=True, timeout=CVC5_TIMEOUT_S + 10)
+        p = subprocess.run([CVC5, '--strings-exp', '--tlimit=%d' % (seconds * 1000), path],
+                           capture_output=True, text=True, timeout=seconds + 10)
         out = p.stdout.strip().splitlines()
         if out and out[0] in ('sat', 'unsat', 'unknown'):
             return out[0]
